@@ -43,6 +43,7 @@ WRAPPERS = ("core::result::Result", "core::option::Option", "core::ops::control_
 SLICE_CONTAINS = "core::slice::<impl [T]>::contains"
 RANGE_INCL_CONTAINS = "core::ops::range::RangeInclusive::<Idx>::contains"
 RANGE_CONTAINS = "core::ops::range::Range::<Idx>::contains"
+RANGEBOUNDS_CONTAINS = "core::ops::range::RangeBounds::contains"     # the same test through a helper generic over the range type
 RANGE_INCL_NEW = "core::ops::range::RangeInclusive::<Idx>::new"
 DEREF = "core::ops::deref::Deref::deref"
 DEREF_MUT = "core::ops::deref::DerefMut::deref_mut"
@@ -271,7 +272,7 @@ class VecLen:
 
     def _const_set(self, st, bb, t, name):
         """the constant set a `contains` call tests membership in, or None"""
-        if name in (RANGE_INCL_CONTAINS, RANGE_CONTAINS):
+        if name in (RANGE_INCL_CONTAINS, RANGE_CONTAINS, RANGEBOUNDS_CONTAINS):
             r = self._sym_of_operand(st, t["args"][0])
             if r and r[0] == "ref" and r[1].startswith("_") and r[1][1:].isdigit():
                 r = st.sym.get(int(r[1][1:]))
@@ -315,6 +316,10 @@ class VecLen:
         for key in list(st.vec):
             if _under(key, src):
                 st.vec[dst + key[len(src):] if key.startswith(src) else key.replace(src, dst, 1)] = st.vec[key]
+        for key in list(st.dirty):
+            # "its elements are no longer the original ones in original order" travels with the value
+            if _under(key, src):
+                st.dirty.add(dst + key[len(src):] if key.startswith(src) else key.replace(src, dst, 1))
 
     def _forget_syms(self, st, key):
         """the length of `key` changed in an unknown way: values derived from its old length say nothing any more"""
@@ -506,12 +511,25 @@ class VecLen:
         if name in (VEC_LEN, SLICE_LEN) and key0 and dl is not None:
             st.sym[dl] = ("len", key0, 0)
             return
-        if name in (SLICE_CONTAINS, RANGE_INCL_CONTAINS, RANGE_CONTAINS) and dl is not None and len(args) == 2:
+        if name in (SLICE_CONTAINS, RANGE_INCL_CONTAINS, RANGE_CONTAINS, RANGEBOUNDS_CONTAINS) and dl is not None and len(args) == 2:
             # `[3, 4].contains(&a.len())`, `(2..=3).contains(&len)`: membership of a tracked length in a constant set
             needle = self._sym_of_operand(st, args[1])
             if needle and needle[0] == "ref" and needle[1].startswith("_") and needle[1][1:].isdigit():
                 needle = st.sym.get(int(needle[1][1:]))
             vals = self._const_set(st, bb, t, name)
+            if vals is None and needle and needle[0] == "len" and name == RANGEBOUNDS_CONTAINS:
+                # `(4..).contains(&len)`: a lower bound only
+                from .prov import Prov, resolve_consts
+                if self._pv is None:
+                    self._pv = Prov(self.fn)
+                a0 = resolve_consts(self.fn.prog, self._pv.operand_term(args[0], bb, "term"))
+                while a0[0] in ("ref", "deref"):
+                    a0 = a0[1]
+                if a0[0] == "aggr" and a0[1] == "core::ops::range::RangeFrom":
+                    lo = dict(a0[3]).get("start")
+                    if lo and lo[0] == "const" and isinstance(lo[1], int) and not isinstance(lo[1], bool):
+                        st.sym[dl] = ("cmp", "Ge", needle[1], lo[1] - needle[2])
+                        return
             if needle and needle[0] == "len" and vals is not None:
                 st.sym[dl] = ("memb", needle[1], tuple(sorted(v - needle[2] for v in vals)))
             return
